@@ -60,6 +60,9 @@ func (q *TellHub[A]) Receive(ctx context.Context, fn func(p2p.Message[A])) error
 // Deliver delivers a message to a caller of Recv
 // If Deliver returns an error it will be from the context expiring.
 func (q *TellHub[A]) Deliver(ctx context.Context, m p2p.Message[A]) error {
+	if err := q.checkClosed(); err != nil {
+		return err
+	}
 	req := &deliverReq[A]{
 		msg:  m,
 		done: make(chan struct{}),
@@ -134,6 +137,9 @@ func (q *AskHub[A]) ServeAsk(ctx context.Context, fn func(context.Context, []byt
 }
 
 func (q *AskHub[A]) Deliver(ctx context.Context, respData []byte, msg p2p.Message[A]) (int, error) {
+	if err := q.checkClosed(); err != nil {
+		return 0, err
+	}
 	req := &serveReq[A]{
 		msg:  msg,
 		resp: respData,
